@@ -14,6 +14,11 @@
 // Re-entrant jobs (scenario flag d | c | a on job 0): its Drop() submits a child job to the same pool / its Call() does
 // (control) / its Drop() calls Alive().  The child is an ordinary recorded job; its !sub/!ret markers are nested inside
 // the parent's Drop/Call on whatever fiber runs it (submitter, worker, or the stopper inside HardStop's drop loop).
+// Fork kinds (job 0): f | g: its Call() submits two | three children back-to-back; j: fork-join -- Call() submits child 1
+// and child 2, then blocks until both are finished (Called or Dropped), and child 1's Call() blocks until child 2 is
+// finished (needs three workers: parent, child 1, child 2); k: as j, and the stopper makes its stop call only after the
+// parent is finished (no stop racing the fork).  Blocking is a harness mutex + condition variable (fiber-blocking,
+// not traced).
 #include "vrt_all.hpp"
 
 #include "vrt_main.hpp"
@@ -62,6 +67,25 @@ std::int64_t ChooseReduced(int kind, std::uint64_t n) {
   return vrt::detail::Choose(kind, n);
 }
 
+struct Join {  // "job i is finished" flags with blocking wait
+  yaclib_std::mutex m;
+  yaclib_std::condition_variable cv;
+  bool done[16] = {};
+  void Signal(int i) {
+    {
+      std::lock_guard lock{m};
+      done[i] = true;
+    }
+    cv.notify_all();
+  }
+  void Wait(int i) {
+    std::unique_lock lock{m};
+    while (!done[i]) {
+      cv.wait(lock);
+    }
+  }
+};
+
 struct Rec {
   int clock = 0;
   int running = 0;
@@ -84,6 +108,10 @@ struct TJob final : yaclib::Job {
   yaclib_std::atomic<int>* yield_at = nullptr;
   int child_on_drop = -1;   // Drop() submits this job to the same pool
   int child_on_call = -1;   // Call() submits this job to the same pool
+  int fork_first = -1;      // Call() submits jobs fork_first .. fork_first + fork_count - 1 back-to-back
+  int fork_count = 0;
+  int wait_for[2] = {-1, -1};  // Call() then blocks until these jobs are finished
+  Join* join = nullptr;
   bool alive_on_drop = false;  // Drop() asks the pool whether it is alive
   const std::function<void(int)>* submit = nullptr;
   yaclib::FairThreadPool* pool = nullptr;
@@ -107,8 +135,19 @@ struct TJob final : yaclib::Job {
     if (child_on_call >= 0) {
       (*submit)(child_on_call);
     }
+    for (int k = 0; k < fork_count; ++k) {
+      (*submit)(fork_first + k);
+    }
+    for (int w : wait_for) {
+      if (w >= 0) {
+        join->Wait(w);
+      }
+    }
     vrt::Event("end " + std::to_string(id));
     --rec->running;
+    if (join != nullptr) {
+      join->Signal(id);
+    }
   }
   void Drop() noexcept final {
     ++rec->drops[id];
@@ -126,6 +165,9 @@ struct TJob final : yaclib::Job {
       vrt::Event("alive");
       const bool alive = pool->Alive();
       vrt::Event(alive ? "alived 1" : "alived 0");
+    }
+    if (join != nullptr) {
+      join->Signal(id);
     }
   }
   void IncRef() noexcept final {
@@ -145,7 +187,8 @@ struct Cfg {
   int pre;       // jobs the stopper submits itself before the stop call
   bool late;     // the stopper submits one more job after Wait returned
   bool yield;    // jobs contain a scheduling point
-  char reent = 0;  // 'd': job 0's Drop submits a child job, 'c': job 0's Call does, 'a': job 0's Drop calls Alive()
+  char reent = 0;  // 'd': job 0's Drop submits a child job, 'c': job 0's Call does, 'a': job 0's Drop calls Alive(),
+                   // 'f' | 'g': job 0's Call forks 2 | 3 children, 'j' | 'k': fork-join (see the header comment)
 };
 
 std::string Name(const Cfg& c) {
@@ -175,7 +218,10 @@ void RunScenario(const Cfg& c) {
   rec.kind = c.kind;
   const int total = c.submitters * c.per + c.pre + (c.late ? 1 : 0);
   const int child = (c.reent == 'd' || c.reent == 'c') ? total : -1;  // the child job's id, after all the others
-  const int total_all = total + (child >= 0 ? 1 : 0);
+  const int forks = c.reent == 'f' || c.reent == 'j' || c.reent == 'k' ? 2 : c.reent == 'g' ? 3 : 0;
+  const bool joined = c.reent == 'j' || c.reent == 'k';
+  const int total_all = total + (child >= 0 ? 1 : 0) + forks;
+  Join join;
   std::vector<TJob> jobs(static_cast<std::size_t>(total_all));
   std::function<void(int)> submit;
   yaclib_std::atomic<int> inside{0};
@@ -189,6 +235,18 @@ void RunScenario(const Cfg& c) {
   jobs[0].child_on_drop = c.reent == 'd' ? child : -1;
   jobs[0].child_on_call = c.reent == 'c' ? child : -1;
   jobs[0].alive_on_drop = c.reent == 'a';
+  if (forks != 0) {
+    jobs[0].fork_first = total;
+    jobs[0].fork_count = forks;
+  }
+  if (joined) {
+    for (int i = 0; i < total_all; ++i) {
+      jobs[i].join = &join;
+    }
+    jobs[0].wait_for[0] = total;
+    jobs[0].wait_for[1] = total + 1;
+    jobs[total].wait_for[0] = total + 1;  // child 1 needs child 2
+  }
   {
     yaclib::FairThreadPool pool(static_cast<std::uint64_t>(c.workers));
     for (int i = 0; i < c.workers; ++i) {
@@ -255,6 +313,9 @@ void RunScenario(const Cfg& c) {
       for (int k = 0; k < c.pre; ++k) {
         submit(c.submitters * c.per + k);
       }
+      if (c.reent == 'k') {
+        join.Wait(0);
+      }
       stop_time = rec.tick();
       vrt::Event("stop " + std::to_string(c.kind));
       switch (c.kind) {
@@ -287,7 +348,7 @@ void RunScenario(const Cfg& c) {
 
     // ---- oracle (property text)
     for (int j = 0; j < total_all; ++j) {
-      if (j == child && rec.sub_begin[j] == 0) {
+      if (j >= total && rec.sub_begin[j] == 0) {
         continue;  // the parent was finished the other way: the child was never submitted
       }
       if (rec.calls[j] + rec.drops[j] != 1) {
@@ -344,6 +405,17 @@ int main(int argc, char** argv) {
     add(1, 1, 2, 0, false, false, 'd');  // a plain job queued behind the re-entrant one
     add(2, 1, 2, 0, false, false, 'd');
     add(1, 1, 1, 1, false, false, 'a');
+  } else if (set == "fork") {  // a running job forks children onto its own pool back-to-back
+    add(1, 1, 1, 0, false, false, 'f');
+    add(2, 1, 1, 0, false, false, 'f');
+    add(3, 1, 1, 0, false, false, 'f');
+    add(3, 1, 1, 0, false, false, 'g');
+    add(3, 1, 1, 0, false, false, 'j');
+    add(3, 1, 1, 0, false, false, 'k');
+    add(3, 1, 2, 0, false, false, 'j');
+    add(3, 0, 0, 1, false, false, 'f');  // no submitter fiber: the stopper submits the parent itself
+    add(3, 0, 0, 1, false, false, 'j');
+    add(3, 0, 0, 1, false, false, 'k');
   } else if (set == "medium") {
     add(1, 1, 2, 0, false, false);
     add(1, 1, 1, 0, false, true);
